@@ -288,7 +288,7 @@ NOT_APPLICABLE = {}
 RULE_ADD = {
     "C01": "Keys and values are handed over as slices of larger buffers (spare capacity filled with other bytes) that must be intact after the call; Batch objects are fresh, reused with Reset, pre-sized with MakeBatch or Loaded from another batch's Dump, and Len/Replay are compared with what was recorded.",
     "C04": "Two thirds of the cases use tail-mode set 1, which adds cuts at 4 KiB page and 32 KiB journal-block boundaries followed by zeros up to the old length; one case in six has the long-journal shape (write buffer 128 KiB-1 MiB, 3-33 KB values, batches of up to 8 x 4 KiB) so that journal records straddle block boundaries, and one in eight the long-manifest shape (1 KiB keys, 512-byte write buffer) so that manifest records do; every other writer of a burst uses DB.Write with a two-record batch.",
-    "C11": "In the fault variant every other failed Commit (and failed Transaction.Put) is retried, twice at most, before the transaction is discarded.",
+    "C11": "30% of the sequential histories get a spliced-in trspill fragment: OpenTransaction, 2-5 puts of more than half a write buffer each (the transaction flushes tables of its own), Transaction.Get of those keys, Discard (2/3) or Commit, directly followed by an oversized batch (another transaction's table, the one that can be given the removed table's file number) and Gets of all keys involved. In the fault variant every other failed Commit (and failed Transaction.Put) is retried, twice at most, before the transaction is discarded.",
     "C08": "A trrace shape (5% of the cases): every table write takes 40-250 us, rounds of buffer-filling puts leave table compactions running in the background, a transaction opened meanwhile flushes tables of its own (two table builders alive at once), one table write/sync fails (a compaction output or the transaction's table is dropped and the work retried), the transaction is committed or discarded and more rounds, a CompactRange, reads of every key and a reopen follow. A trfail shape: a transaction with tables of its own whose Commit meets manifest create/write/sync failures lasting through all its attempts and through the following Discard, then ordinary use. Every other failed Transaction.Commit / Transaction.Put is retried (twice at most) instead of discarding at once. Iterators positioned with Seek (landing pair admissible, no certainly-existing key between the probe and the landing point unless an error is reported) and whole-DB iterator scans in both directions also run while faults are armed (every yielded pair admissible for its key, strictly ordered, no certainly-existing key skipped unless the iterator reports an error); a readfault shape arms one or two table open/read failures under such scans over a multi-level tree with cold caches.",
     "C05": "CompactRange is a client operation too (no effect on the model). Has and snapshot Get are point reads of the model too; every other snapshot / iterator scan walks backwards (Last/Prev) and must yield the same cut.",
     "C10": "An observer goroutine takes snapshots throughout the run: the members of a write group (known from the trace) that wrote a key must all be visible in a snapshot or none of them. The caller's Batch must be byte-identical after DB.Write returns (a foreign record merged into it would be written again with it).",
